@@ -249,6 +249,14 @@ Theorem C01_cost_at_listed : forall n tri i j c,
 Proof. exact cost_at_listed. Qed.
 Print Assumptions C01_cost_at_listed.
 
+(* the slackness loop that ends augment (:455-459) is defined (no bsearch `None`) whenever every x[i] is a listed
+   column of row i - in particular for every perfect matching over listed pairs *)
+Theorem C01_final_u_defined : forall n tri v, NoDup (map fst tri) -> forall x,
+  length x = n -> (forall i, (i < n)%nat -> exists c, In (nth i x n, c) (row (rows_of n tri) i)) ->
+  exists u, final_u (rows_of n tri) x v = Some u /\ length u = n.
+Proof. exact final_u_defined. Qed.
+Print Assumptions C01_final_u_defined.
+
 (* tracker identity with the scaling link: integer costs z = q * s (s > 0) of rational costs q that vanish on the
    diagonal, are non-negative, and positive off the diagonal in the m object rows; and the match cost of
    Proofs.LapjvTrackCost has exactly these sign properties (C01_match_cost_block). *)
